@@ -72,7 +72,8 @@ def runLine (spec : Bool) (line : String) : String :=
     | some fuel, some ts =>
       if spec then
         match ChibiVerif.Spec.PPSpec.expandFileX fuel ts with
-        | .ok (out, crossed) => " ".intercalate ((if crossed then "okx" else "ok") :: out.map showTok)
+        | .ok (out, crossed, gap) =>
+          " ".intercalate (("ok" ++ (if crossed then "x" else "") ++ (if gap then "v" else "")) :: out.map showTok)
         | .error e => "err " ++ errName e
       else
         match preprocessX fuel ts with
